@@ -220,7 +220,7 @@ def msg_wrong_passphrase(body: bytes, same: bool, wrongq: bool, ai: int, g1: byt
 @ob('O4.5', 'positional mutations of the protected data: changing any single octet of what the cipher protects (prefix, repeated octets, packet octets, '
             'D3 14 marker, hash) makes decryption raise', 'body of 1 octet; symbolic position over the whole protected string and symbolic replacement octet; '
             'collision-free hash stand-in (protected string <= 19 octets before the hash)', cond_timeout={'q': 280, 't': 900},
-    partitions=[['pos < 10'], ['10 <= pos < 20']] + [['%d <= pos < %d' % (a, a + 5)] for a in (20, 25, 30, 35)])
+    partitions=[['%d <= pos < %d' % (a, a + 5)] for a in (0, 5, 10, 15, 20, 25, 30, 35)])
 def msg_mutation(pos: int, val: int, r0: int, r1: int) -> bool:
     """
     pre: 0 <= pos < 39
